@@ -48,7 +48,7 @@ package headers
 //@   loop 0 decreases len(s)
 
 //@ func First
-//@   props C02 C03 C09 C10 C11 C16 C17 C18
+//@   props C11 C17 C18
 //@   pure
 //@   allocs <= 0
 //@   ensures result2 == (has(hdrs, k) && len(get(hdrs, k)) > 0)
@@ -70,7 +70,7 @@ package headers
 //@   ensures !ok ==> (forall k :: len(s)-n-1 <= k && k < len(s) ==> isOWS(s[k])) || (forall k :: 0 <= k && k <= n ==> isOWS(s[k]))
 
 //@ func Check
-//@   props C02 C03 C09 C10 C14 C16 C17 C18
+//@   props C14 C17 C18
 //@   pure
 //@   allocs <= 0
 //@   requires SetInv(set)
